@@ -34,6 +34,9 @@ type GenOpts struct {
 	OneGate    bool     // only gate 0 / container 0 (used by deep layers)
 	RichEnv    bool     // rich envelope (arrays of arrays of documents, escape-heavy strings)
 	PlanSummary string
+	UnlistedNames []string // pool for field names in positions C15 does not list ($group / $project / $addFields keys, search paths)
+	MatchPool  []string // C14: names that match the configured regexp (nil = feature off)
+	NamePatterns bool   // C14: a free choice of which generated names are taken from MatchPool
 }
 
 type Case struct {
@@ -49,6 +52,7 @@ type Case struct {
 	NSNodes   []*LNode
 	DB, Coll  string
 	Prods     []string
+	Pattern   int
 	HasNS     bool
 	Focus     []*LNode
 }
@@ -61,16 +65,39 @@ type Gen struct {
 	nsNodes []*LNode
 	top     bool // the stage being generated is a top-level pipeline stage
 	fni     int
+	uni     int
 	prods   []string
 	caseNo  int
 	aux     int
 	focus   []*LNode // the SECRET nodes produced by leaf() (the focused literals of the derivation)
+	pattern int      // C14: which names match (see namePatterns)
 	fnl     bool // user field names generated now are in a position C15 lists (query / update / insert / sort / $match)
 }
 
 var defaultFieldNames = []string{"fld", "status", "createdAt", "owner", "tags", "qty", "score2", "addr"}
 
+// namePatterns: which of the field names generated for a line (numbered in generation order: outer
+// before inner, earlier siblings before later ones) are taken from the matching pool.
+var namePatterns = []struct {
+	name string
+	sel  func(i int) bool
+}{
+	{"none", func(i int) bool { return false }},
+	{"all", func(i int) bool { return true }},
+	{"first", func(i int) bool { return i == 0 }},
+	{"second", func(i int) bool { return i == 1 }},
+	{"third", func(i int) bool { return i == 2 }},
+	{"even", func(i int) bool { return i%2 == 0 }},
+	{"odd", func(i int) bool { return i%2 == 1 }},
+	{"all-but-first", func(i int) bool { return i > 0 }},
+}
+
 func (g *Gen) fname() string {
+	if g.o.MatchPool != nil && namePatterns[g.pattern].sel(g.fni) {
+		n := g.o.MatchPool[g.fni%len(g.o.MatchPool)]
+		g.fni++
+		return n
+	}
 	pool := g.o.FieldNames
 	if pool == nil {
 		pool = defaultFieldNames
@@ -82,13 +109,32 @@ func (g *Gen) fname() string {
 	g.fni++
 	return n
 }
+var defaultUnlistedNames = []string{"outA", "outB", "outC", "outD", "outE", "outF"}
+
+// uname: a user field name for a position the field-name property does not list
+func (g *Gen) uname() string {
+	if g.o.MatchPool != nil {
+		return g.fname() // C14: one numbering for all names on a path
+	}
+	pool := g.o.UnlistedNames
+	if pool == nil {
+		pool = defaultUnlistedNames
+	}
+	n := pool[g.uni%len(pool)]
+	if g.uni >= len(pool) {
+		n = fmt.Sprintf("%s%d", n, g.uni/len(pool))
+	}
+	g.uni++
+	return n
+}
+
 func (g *Gen) FN() LKey {
 	if g.fnl {
 		return FN(g.fname())
 	}
-	return Fn(g.fname())
+	return Fn(g.uname())
 }
-func (g *Gen) Fn() LKey { return Fn(g.fname()) }
+func (g *Gen) Fn() LKey { return Fn(g.uname()) }
 
 // ref builds a "$field" reference.
 func (g *Gen) ref() *LNode {
@@ -412,13 +458,13 @@ func geoPoint(g *Gen) *LNode {
 func searchPath(g *Gen) *LNode {
 	switch g.x.Free(4, "search path form") {
 	case 0:
-		return LS(g.fname()).DC()
+		return LS(g.uname()).DC()
 	case 1:
-		return LA(LS(g.fname()).DC(), LS(g.fname()).DC())
+		return LA(LS(g.uname()).DC(), LS(g.uname()).DC())
 	case 2:
-		return LO("value", LS(g.fname()).DC(), "multi", LS("mlt").DC())
+		return LO("value", LS(g.uname()).DC(), "multi", LS("mlt").DC())
 	default:
-		return LO("wildcard", LS(g.fname()+"*").DC())
+		return LO("wildcard", LS(g.uname()+"*").DC())
 	}
 }
 
@@ -878,26 +924,26 @@ func init() {
 		{"queryString", false, func(g *Gen) *LNode { return LO("queryString", LO("defaultPath", LS("bio").DC(), "query", g.leaf(MStr))) }},
 		{"equals", false, func(g *Gen) *LNode {
 			if g.x.Free(2, "path/value order") == 0 {
-				return LO("equals", LO("path", LS(g.fname()).DC(), "value", g.leaf(MStr|MBool|MNum|MDate|MOid|MNull)))
+				return LO("equals", LO("path", LS(g.uname()).DC(), "value", g.leaf(MStr|MBool|MNum|MDate|MOid|MNull)))
 			}
-			return LO("equals", LO("value", g.leaf(MStr|MBool|MNum|MDate|MOid), "path", LS(g.fname()).DC(), "score", LO("boost", LO("value", LN("2"))).DC()))
+			return LO("equals", LO("value", g.leaf(MStr|MBool|MNum|MDate|MOid), "path", LS(g.uname()).DC(), "score", LO("boost", LO("value", LN("2"))).DC()))
 		}},
 		{"in", false, func(g *Gen) *LNode {
 			if g.x.Free(2, "in value form") == 0 {
-				return LO("in", LO("path", LS(g.fname()).DC(), "value", LA(g.leaf(MStr|MNum|MDate|MOid|MBool), g.sec())))
+				return LO("in", LO("path", LS(g.uname()).DC(), "value", LA(g.leaf(MStr|MNum|MDate|MOid|MBool), g.sec())))
 			}
-			return LO("in", LO("path", LS(g.fname()).DC(), "value", g.leaf(MStr|MNum|MDate|MOid|MBool)))
+			return LO("in", LO("path", LS(g.uname()).DC(), "value", g.leaf(MStr|MNum|MDate|MOid|MBool)))
 		}},
 		{"range", false, func(g *Gen) *LNode {
 			ops := []string{"gt", "gte", "lt", "lte"}
 			op := ops[g.x.Free(4, "range bound")]
-			return LO("range", LO("path", LS(g.fname()).DC(), op, g.leaf(MNum|MDate|MStr|MOid)))
+			return LO("range", LO("path", LS(g.uname()).DC(), op, g.leaf(MNum|MDate|MStr|MOid)))
 		}},
 		{"near", false, func(g *Gen) *LNode {
 			if g.x.Free(2, "near origin form") == 0 {
-				return LO("near", LO("path", LS(g.fname()).DC(), "origin", g.leaf(MDate|MNum), "pivot", LN("1000").DC()))
+				return LO("near", LO("path", LS(g.uname()).DC(), "origin", g.leaf(MDate|MNum), "pivot", LN("1000").DC()))
 			}
-			return LO("near", LO("path", LS(g.fname()).DC(), "origin", LO("type", LS("Point").DC(), "coordinates", LA(g.leaf(MNum), g.secNum())), "pivot", LN("1000").DC()))
+			return LO("near", LO("path", LS(g.uname()).DC(), "origin", LO("type", LS("Point").DC(), "coordinates", LA(g.leaf(MNum), g.secNum())), "pivot", LN("1000").DC()))
 		}},
 		{"compound", true, func(g *Gen) *LNode {
 			kinds := []string{"must", "mustNot", "should", "filter"}
